@@ -574,7 +574,7 @@ fn gen_holes(r: &mut Rng, i: u64) -> Vec<String> {
     let n = r.range(1, 8);
     let mut s = String::new();
     for _ in 0..n {
-        s.push_str(r.pick(&allowed));
+        s.push_str(*r.pick(&allowed[..]));
     }
     if kind == "desc" && !all {
         // no line may be blank or start with white space
@@ -986,7 +986,7 @@ fn run_crash(f: &[&str]) -> String {
             let mut s = Session::new(&base);
             let mut steps: Vec<String> = vec![];
             let mut bad: Option<String> = None;
-            let mut note = |o: &Outcome, steps: &mut Vec<String>, bad: &mut Option<String>| {
+            let note = |o: &Outcome, steps: &mut Vec<String>, bad: &mut Option<String>| {
                 let c = inproc_class(&o.result);
                 if c.starts_with("panic") && bad.is_none() {
                     *bad = Some(c.clone());
